@@ -2,7 +2,8 @@
    Statements only; proofs are in parse/YearThm.v and parse/Render*.v over the hand model. *)
 From Coq Require Import ZArith List Bool.
 From V Require Import base.Cal gen.ParseTables parse.Lex parse.Prim parse.Ymd parse.Parse parse.Build
-                      parse.ParseSpec parse.YearThm parse.RenderIso.
+                      parse.ParseSpec parse.YearThm parse.RenderIso parse.RenderMon parse.FracFacts
+                      parse.RenderUtc parse.RenderRefuted.
 Import ListNotations.
 Open Scope Z_scope.
 
@@ -46,3 +47,48 @@ Example C02_render_example :
   render (TDT DIso JT THMS ONone) (mkDt 2003 9 25 10 49 41 0) (mkOff true 0 0)
   = [50;48;48;51;45;48;57;45;50;53;84;49;48;58;52;57;58;52;49].
 Proof. repeat split; try (cbn; auto; fail); vm_compute; reflexivity. Qed.
+
+(* 6 templates: DD Mon YYYY and DD Month YYYY, alone or followed by " HH:MM" / " HH:MM:SS";
+   guard 100 <= year: years 1..99 are the open finding F-C02-padyear (refuted below) *)
+Theorem C02_parse_render_name_date : forall f jt d o df cy loc n0 n1 yf ig,
+  In f name_dforms -> In jt name_tails ->
+  valid_dt d = true -> valid_dt df = true -> 100 <= d_y d ->
+  parse (opts_df0 yf ig df cy loc n0 n1) (render (TDT f (fst jt) (snd jt) ONone) d o)
+  = OutOk (expected_dt (TDT f (fst jt) (snd jt) ONone) d df) ZNaive 0 false [].
+Proof. exact parse_render_name_date_lemma. Qed.
+Print Assumptions C02_parse_render_name_date.
+
+(* fractions, token level: the seconds token "SS.f" (f = the first k digits of the six-digit
+   microsecond, zero-extended beyond six; the lexer has already turned a decimal comma into a dot,
+   LexSeg.lex_frac) is read by _parsems as (SS, microsecond truncated to k digits), k = 1..9.
+   (Whole-template statements for the fraction forms are tested-only: the symbolic execution of one
+   case needed > 20 GB.) *)
+Theorem C02_frac_token_value : forall s k us,
+  0 <= s < 100 -> (1 <= k <= 9)%nat -> 0 <= us < 1000000 ->
+  parsems (digits_n 2 s ++ 46 :: frac_digits k us) = Ok (s, trunc_us k us).
+Proof. exact tok_parsems_frac. Qed.
+Print Assumptions C02_frac_token_value.
+
+(* 6 templates: YYYY-MM-DD{T, space}HH:MM:SS followed by Z / " UTC" / " GMT": aware, UTC.
+   Hypothesis: UTC and GMT are not names of the local zone (time.tzname); with ignoretz: naive *)
+Theorem C02_parse_render_iso_utc : forall j ofm d o df cy loc n0 n1 yf ig,
+  In j plain_joiners -> In ofm utc_oforms ->
+  valid_dt d = true -> valid_dt df = true ->
+  smem [85; 84; 67] loc = false -> smem [71; 77; 84] loc = false ->
+  parse (opts_df0 yf ig df cy loc n0 n1) (render (TDT DIso j THMS ofm) d o)
+  = OutOk (expected_dt (TDT DIso j THMS ofm) d df) (if ig then ZNaive else ZUTC) 0 false [].
+Proof. exact parse_render_iso_utc_lemma. Qed.
+Print Assumptions C02_parse_render_iso_utc.
+
+(* F-C02-padyear: inside the complement of the guard the round trip fails on the faithful model
+   ("25 Sep 0099" and "Sat Sep 25 10:36:28 0099" are read as 1999) *)
+Theorem C02_padyear_refuted :
+  valid_dt pad_dt = true /\
+  parse pad_opts (render (TDT DDMonY JNone TNone ONone) pad_dt (mkOff true 0 0))
+    = OutOk (mkDt 1999 9 25 0 0 0 0) ZNaive 0 false [] /\
+  expected_dt (TDT DDMonY JNone TNone ONone) pad_dt (o_default pad_opts) = mkDt 99 9 25 0 0 0 0 /\
+  parse pad_opts (render TCtime pad_dt (mkOff true 0 0))
+    = OutOk (mkDt 1999 9 25 10 36 28 0) ZNaive 0 false [] /\
+  expected_dt TCtime pad_dt (o_default pad_opts) = mkDt 99 9 25 10 36 28 0.
+Proof. exact padyear_refuted_lemma. Qed.
+Print Assumptions C02_padyear_refuted.
